@@ -35,6 +35,76 @@ Theorem C05_compose_not :
 Proof. exact compose_not. Qed.
 Print Assumptions C05_compose_not.
 
+(* bit.inc n: the carry is a cell, a step that finds it clear leaves the macro *)
+Theorem C05_compose_inc :
+  forall ww sg img ch,
+    ch_bits ch = 1 ->
+    ch_rev ch = false -> ch_fall ch = 0 ->
+    chain_static ww img ch = true ->
+    length (cvars ch) = 1%nat ->
+    pro_check ww sg img ch [1] = true ->
+    (forall i, (i < ch_n ch)%nat -> forallb (digit_check ww sg img ch dspec_binc i) (digit_dom ch i) = true) ->
+    epi_all ww sg img ch = true ->
+    forall a, a < 2 ^ (ch_bits ch * N.of_nat (ch_n ch)) ->
+    block_correct ww sg img (ch_block ch) (v_inc (ch_bits ch * N.of_nat (ch_n ch))) [a].
+Proof. exact compose_binc. Qed.
+Print Assumptions C05_compose_inc.
+
+(* bit.add n (carry chain), bit.cmp n (three-way, from the most significant bit), bit.if / if0 / if1 n (zero test) *)
+Theorem C05_compose_add :
+  forall ww sg img ch,
+    ch_rev ch = false -> ch_fall ch = 0 ->
+    chain_static ww img ch = true ->
+    length (cvars ch) = 2%nat ->
+    pro_check ww sg img ch [0] = true ->
+    (forall i, (i < ch_n ch)%nat -> forallb (digit_check ww sg img ch (dspec_add (2 ^ ch_bits ch)) i) (digit_dom ch i) = true) ->
+    epi_all ww sg img ch = true ->
+    forall a b, a < 2 ^ (ch_bits ch * N.of_nat (ch_n ch)) -> b < 2 ^ (ch_bits ch * N.of_nat (ch_n ch)) ->
+    block_correct ww sg img (ch_block ch) (v_add (ch_bits ch * N.of_nat (ch_n ch))) [a; b].
+Proof. exact compose_add. Qed.
+Print Assumptions C05_compose_add.
+
+Theorem C05_compose_cmp :
+  forall ww sg img ch,
+    ch_rev ch = true -> ch_fall ch = 2 ->
+    chain_static ww img ch = true ->
+    length (cvars ch) = 2%nat ->
+    pro_check ww sg img ch [] = true ->
+    (forall i, (i < ch_n ch)%nat -> forallb (digit_check ww sg img ch dspec_cmp i) (digit_dom ch i) = true) ->
+    epi_all ww sg img ch = true ->
+    forall a b, a < 2 ^ (ch_bits ch * N.of_nat (ch_n ch)) -> b < 2 ^ (ch_bits ch * N.of_nat (ch_n ch)) ->
+    block_correct ww sg img (ch_block ch) (v_cmp (ch_bits ch * N.of_nat (ch_n ch))) [a; b].
+Proof. exact compose_cmp. Qed.
+Print Assumptions C05_compose_cmp.
+
+Theorem C05_compose_if :
+  forall ww sg img ch xz xnz,
+    ch_rev ch = false -> ch_fall ch = xz ->
+    chain_static ww img ch = true ->
+    length (cvars ch) = 1%nat ->
+    pro_check ww sg img ch [] = true ->
+    (forall i, (i < ch_n ch)%nat -> forallb (digit_check ww sg img ch (dspec_if xnz) i) (digit_dom ch i) = true) ->
+    epi_all ww sg img ch = true ->
+    forall a, a < 2 ^ (ch_bits ch * N.of_nat (ch_n ch)) ->
+    block_correct ww sg img (ch_block ch) (v_if (ch_bits ch * N.of_nat (ch_n ch)) xz xnz) [a].
+Proof. exact compose_if. Qed.
+Print Assumptions C05_compose_if.
+
+(* bit.xor_zero / bit.swap n (both operands change), bit.zero n *)
+Theorem C05_compose_digitwise2 :
+  forall ww sg img ch f g F G,
+    (forall x y j, dg (ch_bits ch) j (F x y) = f (dg (ch_bits ch) j x) (dg (ch_bits ch) j y)) ->
+    (forall x y j, dg (ch_bits ch) j (G x y) = g (dg (ch_bits ch) j x) (dg (ch_bits ch) j y)) ->
+    ch_rev ch = false -> ch_fall ch = 0 ->
+    chain_static ww img ch = true ->
+    length (cvars ch) = 2%nat ->
+    pro_check ww sg img ch [] = true ->
+    (forall i, (i < ch_n ch)%nat -> forallb (digit_check ww sg img ch (dspec_map22 f g) i) (digit_dom ch i) = true) ->
+    epi_all ww sg img ch = true ->
+    forall a b, block_correct ww sg img (ch_block ch) (v_map22 F G) [a; b].
+Proof. exact compose_map22. Qed.
+Print Assumptions C05_compose_digitwise2.
+
 (* LOCALITY, on which both rest *)
 Theorem C05_locality :
   forall ww sg k s c sf T W s',
@@ -52,5 +122,7 @@ Theorem C05_locality :
 Proof. exact locality. Qed.
 Print Assumptions C05_locality.
 
-Example C05_specs_are_digitwise : bit_xor 64 = v_map2 N.lxor /\ bit_not 64 = v_not (1 * 64).
-Proof. split; reflexivity. Qed.
+Example C05_specs_are_digitwise :
+  bit_xor 64 = v_map2 N.lxor /\ bit_not 64 = v_not (1 * 64) /\ bit_swap 64 = v_map22 (fun _ s => s) (fun d _ => d) /\
+  bit_xor_zero 64 = v_map22 N.lxor (fun _ _ => 0) /\ bit_zero 64 = v_map1 (fun _ => 0) /\ bit_if0 64 = v_if (1 * 64) 1 0.
+Proof. repeat split; reflexivity. Qed.
